@@ -198,6 +198,39 @@ def mode_patterns(rng, n):
     return out
 
 
+def moved_patches():
+    """the ONLY elision of each side, at different places: the run moves.  k kept statements, '-...' in slot i, '+...' in slot j;
+    wrapped in 'if ok {' (exact reference) or at the top level of the patch (conservation of statements)"""
+    out = []
+    for wrapped in (True, False):
+        for k in (1, 2):
+            items = ["a", "b"][:k]
+            for i in range(k + 1):
+                for j in range(k + 1):
+                    if i == j:
+                        continue
+                    ind = "  " if wrapped else ""
+                    lines = ["@@", "@@"] + ([" if ok {"] if wrapped else [])
+                    for slot in range(k + 1):
+                        if slot == i:
+                            lines.append("-" + ind + "...")
+                        if slot == j:
+                            lines.append("+" + ind + "...")
+                        if slot < k:
+                            lines.append(" " + ind + items[slot] + "()")
+                    lines += [" }"] if wrapped else []
+                    out.append((wrapped, items, i, j, ("\n".join(lines) + "\n").encode()))
+    return out
+
+
+def ref_moved(items, i, j, l):
+    k = len(items)
+    if len(l) < k or l[:i] != items[:i] or (k - i and l[len(l) - (k - i):] != items[i:]):
+        return None
+    run = l[i:len(l) - (k - i)]
+    return items[:j] + run + items[j:]
+
+
 def file_stmts(ls):
     fns = []
     for k, l in enumerate(ls):
@@ -271,6 +304,9 @@ def main():
     for pat in mode_patterns(ck.rng, 300 if thorough else 70):
         pairs.append(("p.patch", patch_stmts_modes(pat), "a.go", file_stmts(ls)))
         names.append("stmts-modes:%s" % " ".join(sy + (":" + m if m else "") for sy, m in pat)); meta.append(("stmts-modes", pat, None, None))
+    for wrapped, items, i, j, pt in moved_patches():
+        pairs.append(("p.patch", pt, "a.go", file_stmts(ls)))
+        names.append("moved:%s%s -%d +%d" % ("if " if wrapped else "", " ".join(items), i, j)); meta.append(("moved", (wrapped, items, i, j), None, None))
     # which '-' elision a '+' elision reproduces: by position in the patch (closest '-' elision at or before it), not by ordinal
     ASSOC = [
         ("@@\n@@\n-start(...)\n process(...)\n+finish(...)\n", "func h() {\n\tstart(1, 2)\n\tprocess(3, 4)\n}\n"),
@@ -367,6 +403,35 @@ def main():
                         ck.violation("statement pattern [%s] against block [%s]: expected %s, gopatch produced %s"
                                      % (" ".join(sy + (":" + m if m else "") for sy, m in pat), " ".join(l), want, got),
                                      {"patch": pair[1].decode(), "block": l, "expected": want, "got": got})
+        if kind == "moved":
+            wrapped, items, i, j = pat
+            if o["skipped"]:
+                # a '+' elision written before the only '-' elision has no counterpart: rejected when the patch is loaded
+                ck.tally("moved", "rejected at load")
+                if j > i:
+                    ck.violation("the only elision of each side, '+' after '-' (%s): the patch is rejected" % name, {"patch": pair[1].decode()})
+            else:
+                ck.tally("moved", "loaded")
+                out = (unb64(r["out"]) if r.get("out") else pair[3]).decode("utf-8", "replace")
+                blocks = re.findall(r"func h\d+\(\) \{\n\tif ok \{\n((?:\t\t.*\n|\n)*)\t\}\n\}", out)
+                if len(blocks) == len(base_lists):
+                    for l, bl in zip(base_lists, blocks):
+                        npairs += 1
+                        got = [s_.strip()[:-2] for s_ in bl.split("\n") if s_.strip()]
+                        if wrapped:
+                            exp = ref_moved(items, i, j, l)
+                            want = exp if exp is not None else l
+                            bad = got != want
+                        else:
+                            want = sorted(l)
+                            bad = sorted(got) != want
+                        if bad:
+                            ck.violation("moved elision (%s) against block [%s]: expected %s%s, gopatch produced %s"
+                                         % (name, " ".join(l), "the statements " if not wrapped else "", want, got),
+                                         {"patch": pair[1].decode(), "block": l, "expected": want, "got": got})
+                else:
+                    ck.violation("moved elision (%s): statements left or entered their blocks" % name,
+                                 {"patch": pair[1].decode(), "output": out[:3000]})
         if kind == "stmts" and not o["skipped"]:
             ls = base_lists
             out = (unb64(r["out"]) if r.get("out") else pair[3]).decode("utf-8", "replace")
